@@ -326,7 +326,9 @@ make_template(const shared_ptr<Scanner>& sc, const json& c)
     { // truncated axial range of one segment (set_min/max_axial_pos_num are public ProjDataInfo setters)
       const int nseg = p->get_num_segments();
       const int seg = p->get_min_segment_num() + int(pmod(c["ax_trim"][0].get<long>(), nseg));
-      const int lo = int(c["ax_trim"][1].get<long>()), hi = int(c["ax_trim"][2].get<long>());
+      // symmetric only: ProjDataInfoCylindrical derives the axial origin from (min+max)/2, so an asymmetric change is a
+      // shifted geometry (which initialise_ring_diff_arrays error()s on for span > 1), not a truncation
+      const int lo = int(pmod(c["ax_trim"][1].get<long>(), 3)), hi = lo;
       if (p->get_num_axial_poss(seg) > lo + hi)
         {
           p->set_min_axial_pos_num(p->get_min_axial_pos_num(seg) + lo, seg);
@@ -347,6 +349,12 @@ make_world(const json& c)
   w.cyl = dynamic_cast<const ProjDataInfoCylindricalNoArcCorr*>(w.tmpl.get());
   if (!w.cyl)
     throw std::runtime_error("template is not ProjDataInfoCylindricalNoArcCorr");
+  {
+    // force the lazily built ring-difference tables now: their error() ("axial positions do not correspond...") is a
+    // rejection of the geometry at construction, not an outcome of histogramming
+    int sg, ax;
+    w.cyl->get_segment_axial_pos_num_for_ring_pair(sg, ax, 0, 0);
+  }
   w.has_delayeds = c["has_delayeds"].get<bool>();
   w.recs = decode_stream(c, *w.sc);
   w.index.pdi = w.tmpl;
@@ -430,19 +438,37 @@ expected(const World& w, const Selection& sel, bool store_prompts, bool store_de
   return ex;
 }
 
-//! finding C14-F1: a frame [s,e) with s > 0 that contains no time mark, followed by a later mark with events behind it
+//! finding C14-F1: LmToProjData enters the event loop of a frame without testing that the current time is before the
+//! frame's end.  Trigger: when the records up to the first time mark >= start have been skipped (in a multi-frame run:
+//! when the previous frame has consumed the mark that ended it) the current time is already >= end and the next record
+//! is an event.  This predicate only decides the exclusion; it follows the positions of one process_data() call.
 bool
-frame_without_mark_hazard(const World& w, long s_ms, long e_ms)
+frame_entry_hazard(const World& w, const std::vector<std::pair<long, long>>& frames)
 {
-  if (s_ms <= 0)
-    return false;
-  for (std::size_t i = 0; i < w.recs.size(); ++i)
-    if (w.recs[i].kind == 0 && long(w.recs[i].ms) >= s_ms)
-      { // first mark at or after the start of the frame
-        if (long(w.recs[i].ms) < e_ms)
-          return false;
-        return i + 1 < w.recs.size() && w.recs[i + 1].kind != 0;
-      }
+  std::size_t pos = 0;
+  long cur = 0;
+  const std::size_t n = w.recs.size();
+  for (const auto& f : frames)
+    {
+      while (cur < f.first && pos < n)
+        {
+          const Rec& r = w.recs[pos++];
+          if (r.kind == 0)
+            cur = long(r.ms);
+        }
+      if (cur >= f.second && pos < n && w.recs[pos].kind != 0)
+        return true;
+      while (pos < n)
+        {
+          const Rec& r = w.recs[pos++];
+          if (r.kind == 0)
+            {
+              cur = long(r.ms);
+              if (cur >= f.second)
+                break;
+            }
+        }
+    }
   return false;
 }
 
@@ -577,7 +603,7 @@ num_batches(const World& w, const RunCfg& r)
 }
 
 std::vector<RunCfg>
-run_cfgs(const json& c, bool single_tof_bin_template)
+run_cfgs(const json& c, bool single_tof_bin_template, bool axial_range_not_from_zero)
 {
   std::vector<RunCfg> v;
   for (const json& r : c["runs"])
@@ -593,6 +619,8 @@ run_cfgs(const json& c, bool single_tof_bin_template)
         x.ntof = (x.ntof == 0) ? 1 : -1;
       x.to_file = r[2].get<long>() != 0;
       x.tof_via_parser = r[3].get<long>() != 0;
+      if (x.to_file && axial_range_not_from_zero)
+        x.to_file = false; // the Interfile header stores only the NUMBER of axial positions: such a template cannot be a file
       if (x.to_file && single_tof_bin_template && exclusions_on())
         { // finding C14-F5: the Interfile header LmToProjData writes for a TOF template mashed to ONE TOF bin cannot be read back
           x.to_file = false;
@@ -793,6 +821,28 @@ check_likelihood(const json& c, const World& w, const Selection& sel, const std:
         if (pmod(w.bins[b].view_num() - w.tmpl->get_min_view_num(), nsub) == subset)
           q[b] = ex.hist[b] * quot_event;
       }
+  if (sym != 0)
+    { // the same screen with the rows the objectives really use (rows derived through symmetry operations can differ from the
+      // direct ones by float residues such as 1.2e-7 at plane boundaries, which is enough to reach the quotient thresholds)
+      shared_ptr<ProjMatrixByBinUsingRayTracing> mm = lik_matrix(L);
+      mm->set_up(w.tmpl, image);
+      ProjMatrixElemsForOneBin row;
+      for (std::size_t b = 0; b < q.size(); ++b)
+        if (ex.hist[b] > 0)
+          {
+            mm->get_proj_matrix_elems_for_one_bin(row, w.bins[b]);
+            double f = 0;
+            bool any = false;
+            for (auto it = row.begin(); it != row.end(); ++it)
+              if (P.inside(it->coord1(), it->coord2(), it->coord3()))
+                {
+                  any = true;
+                  f += double(it->get_value()) * x[std::size_t(P.vox_index(it->coord1(), it->coord2(), it->coord3()))];
+                }
+            const double den = f + (use_add ? addv[b] : 0.);
+            max_quot = std::max(max_quot, den > 0 ? ex.hist[b] / den : (any ? 1e30 : 0.));
+          }
+    }
   stats().cls(cat("likelihood: ", tof ? "TOF" : "non-TOF", use_add ? " +additive" : "", use_norm ? " +norm" : "", nsub > 1 ? " subsets" : ""));
   if (max_quot > 1000.)
     { // both objectives regularise quotients near 1e4 (divide_and_truncate / max_quotient), in different ways: documented
@@ -816,23 +866,65 @@ check_likelihood(const json& c, const World& w, const Selection& sel, const std:
   to_vec(vpd, *g_pd);
   const std::string ctx = cat("[", tof ? "TOF" : "non-TOF", " add=", use_add, " norm=", use_norm, " subsets=", nsub, " subset=", subset, " sym=", sym,
                               " lmcache=", L["lmcache"].get<long>(), " events=", ex.n_accepted, "]");
+  if (std::getenv("VERIF_C14_DEBUG"))
+    {
+      shared_ptr<ProjMatrixByBinUsingRayTracing> mm = lik_matrix(L);
+      mm->set_up(w.tmpl, image);
+      for (std::size_t b = 0; b < q.size(); ++b)
+        if (ex.hist[b] > 0)
+          {
+            ProjMatrixElemsForOneBin row;
+            mm->get_proj_matrix_elems_for_one_bin(row, w.bins[b]);
+            std::cerr << "DEBUG bin " << show_bin(w.bins[b]) << " y=" << ex.hist[b] << " fwd(explicit)=" << fwd[b] << " explicit row:";
+            for (auto& e : P.rows[b])
+              std::cerr << " [" << e.first << "]=" << e.second;
+            std::cerr << "\n   STIR row (sym " << sym << "):";
+            for (auto it = row.begin(); it != row.end(); ++it)
+              std::cerr << " (" << it->coord1() << "," << it->coord2() << "," << it->coord3() << ")=" << it->get_value();
+            std::cerr << "\n";
+          }
+      for (std::size_t i = 0; i < vlm.size(); ++i)
+        std::cerr << "DEBUG grad " << i << " lm " << vlm[i] << " pd " << vpd[i] << " ref " << gref[i] << "\n";
+    }
+  if (std::getenv("VERIF_C14_DEBUG") && use_add && tof)
+    { // hypothesis behind finding C14-F4: every event gets the additive value of the LAST TOF bin of its spatial bin
+      const std::size_t per_tof = addv.size() / std::size_t(w.tmpl->get_num_tof_poss());
+      std::vector<double> q2(q.size(), 0.);
+      for (std::size_t b = 0; b < q2.size(); ++b)
+        if (ex.hist[b] > 0 && q[b] != 0)
+          q2[b] = ex.hist[b] / (fwd[b] + addv[(b % per_tof) + per_tof * std::size_t(w.tmpl->get_num_tof_poss() - 1)]);
+      const std::vector<double> g2 = P.back(q2);
+      double md = 0;
+      for (std::size_t i = 0; i < g2.size(); ++i)
+        md = std::max(md, std::fabs(g2[i] - vlm[i]));
+      std::cerr << "DEBUG F4: max |LM gradient - reference with additive term of the last TOF bin| = " << md << " (scale " << max_abs(g2) << ")\n";
+    }
   // tolerance 1e-4 of the maximum (float accumulation in a different order; observed maxima are in the evidence)
   if (gradient_lost)
     stats().excluded_known++;
   else
     PROPAGATE(compare_vec(vlm, vpd, 1e-4, "list-mode gradient (data term) vs projection-data gradient of the histogram " + ctx,
                           "max rel diff LM gradient vs projdata gradient"));
-  PROPAGATE(compare_vec(vpd, gref, 1e-4, "projection-data gradient of the histogram vs explicit matrix reference " + ctx,
-                        "max rel diff projdata gradient vs explicit reference"));
-  if (!gradient_lost && (nsub == 1 || (sym & (1 | 2 | 8)) == 0))
-    { // the explicit reference partitions bins by view % subsets; with view-changing symmetries STIR groups by the basic view
+  // the explicit reference is built from a symmetry-free matrix: rows that STIR derives through a symmetry operation may
+  // differ from directly computed ones for LORs running exactly along voxel boundaries (the subject and the "tie screen" of
+  // C03, frequent on these very small scanners), and with symmetries STIR groups bins into subsets by their BASIC view.
+  // So the reference is used when the objectives' matrices are symmetry-free as well; with symmetries on, the two
+  // objectives (which derive their rows through the same operations) are compared with each other only.
+  const bool ref_applicable = sym == 0;
+  if (ref_applicable)
+    PROPAGATE(compare_vec(vpd, gref, 1e-4, "projection-data gradient of the histogram vs explicit matrix reference " + ctx,
+                          "max rel diff projdata gradient vs explicit reference"));
+  if (!gradient_lost && ref_applicable)
+    {
       PROPAGATE(compare_vec(vlm, gref, 1e-4, "list-mode gradient (data term) vs explicit matrix reference " + ctx,
                             "max rel diff LM gradient vs explicit reference"));
       stats().cls("likelihood: compared with explicit reference");
     }
-  if (!tof)
-    { // with TOF data the list-mode class uses a non-TOF sensitivity unless "use time-of-flight sensitivities" (documented
-      // approximation), so the full gradient is compared for non-TOF data only
+  if (!w.tmpl->is_tof_data())
+    { // with TOF data both classes use a non-TOF sensitivity unless "use time-of-flight sensitivities" (documented
+      // approximation; the two classes decide "TOF data" differently for a template mashed to a single TOF bin:
+      // num_tof_poss > 1 here, is_tof_data() in the projection-data class), so the sensitivity and the full gradient
+      // are compared for non-TOF data only
       shared_ptr<target_type> f_lm(target->get_empty_copy()), f_pd(target->get_empty_copy());
       lmobj.compute_sub_gradient_without_penalty(*f_lm, *target, subset);
       pdobj.compute_sub_gradient_without_penalty(*f_pd, *target, subset);
@@ -887,7 +979,10 @@ check(const json& c)
     }
   const int mode = c["mode"].get<int>();
   const bool store_prompts = c["store_prompts"].get<bool>(), store_delayeds = c["store_delayeds"].get<bool>() || !store_prompts;
-  const std::vector<RunCfg> cfgs = run_cfgs(c, w.tmpl->is_tof_data() && w.tmpl->get_num_tof_poss() == 1);
+  bool ax_from_zero = true;
+  for (int sg = w.tmpl->get_min_segment_num(); sg <= w.tmpl->get_max_segment_num(); ++sg)
+    ax_from_zero = ax_from_zero && w.tmpl->get_min_axial_pos_num(sg) == 0;
+  const std::vector<RunCfg> cfgs = run_cfgs(c, w.tmpl->is_tof_data() && w.tmpl->get_num_tof_poss() == 1, !ax_from_zero);
   const std::vector<std::pair<long, long>> frames = frames_from_case(c);
   // the source handed to LmToProjData reports either the uncompressed geometry or the template: only its scanner matters
   shared_ptr<ProjDataInfo> lm_pdi = w.tmpl;
@@ -941,7 +1036,7 @@ check(const json& c)
           sel.use_time = true;
           sel.s_ms = f < frames.size() ? frames[f].first : frames.front().first;
           sel.e_ms = f < frames.size() ? frames[f].second : frames.back().second;
-          const bool hazard = frame_without_mark_hazard(w, sel.s_ms, sel.e_ms);
+          const bool hazard = frame_entry_hazard(w, { std::make_pair(sel.s_ms, sel.e_ms) });
           if (hazard && f < frames.size())
             hazard_any = true;
           if (hazard && exclusions_on())
@@ -986,7 +1081,7 @@ check(const json& c)
       for (std::size_t k = 0; k < cfgs.size(); ++k)
         if (cfgs[k].to_file)
           {
-            if (hazard_any && exclusions_on())
+            if (frame_entry_hazard(w, frames) && exclusions_on())
               {
                 stats().excluded_known++;
                 continue;
@@ -1012,10 +1107,15 @@ check(const json& c)
       if (neg)
         stats().cls("negative bin (more delayeds than prompts)");
       // the likelihood clause uses one frame of the partition
-      const std::size_t lf = std::size_t(pmod(c["lik"].value("frame", 0L), long(frames.size())));
+      std::size_t lf = std::size_t(pmod(c["lik"].value("frame", 0L), long(frames.size())));
       lik_sel.use_time = true;
-      lik_sel.s_ms = frames[lf].first;
-      lik_sel.e_ms = frames[lf].second;
+      for (std::size_t t = 0; t < frames.size(); ++t, lf = (lf + 1) % frames.size())
+        { // prefer a frame with at least one accepted prompt (precondition of the list-mode gradient, see check_likelihood)
+          lik_sel.s_ms = frames[lf].first;
+          lik_sel.e_ms = frames[lf].second;
+          if (c["lik"].value("on", false) && expected(w, lik_sel, true, false).n_accepted > 0)
+            break;
+        }
     }
   else
     {
@@ -1069,15 +1169,17 @@ gen(Src& s, int size)
   so.allow_tilt = !lik;
   // CListEventScannerWithDiscreteDetectors' constructor builds ProjDataInfo with TOF mashing 1 for the scanner, which
   // error()s for an even number of TOF positions ("Number of TOF bins should be an odd number"): odd or non-TOF only
+  const bool want_tof = s.chance(2, 5); // gen_scanner alone gives an odd-TOF scanner in ~20 % of the draws
   for (int tries = 0;; ++tries)
     {
       c["scanner"] = vg::gen_scanner(s, so);
       const int tp = c["scanner"]["tof_poss"].get<int>();
-      if (tp == 0 || tp % 2 == 1)
+      if ((tp == 0 && !want_tof) || tp % 2 == 1)
         break;
-      if (tries >= 6)
+      if (tries >= 8)
         {
-          c["scanner"]["tof_poss"] = 0;
+          if (tp % 2 == 0)
+            c["scanner"]["tof_poss"] = 0;
           break;
         }
     }
@@ -1088,7 +1190,7 @@ gen(Src& s, int size)
   c["pdi"] = vg::gen_pdi(s, *sc, po);
   c["pdi"]["arccorr"] = false;
   if (!lik && s.chance(1, 4))
-    c["ax_trim"] = json::array({ int(s.range(0, 8)), int(s.range(0, 1)), int(s.range(0, 1)) });
+    c["ax_trim"] = json::array({ int(s.range(0, 8)), int(s.range(1, 2)), 0 });
   c["has_delayeds"] = s.chance(5, 6);
   c["lm_uncompressed"] = s.coin();
 
@@ -1168,7 +1270,7 @@ gen(Src& s, int size)
       b[k] = std::max(std::max(b[k], b[k - 1] + 1), 20L);
     c["bounds"] = b;
   }
-  c["cut"] = s.range(1, std::max(1L, n_events + 2));
+  c["cut"] = s.chance(1, 5) ? s.range(1, std::max(1L, n_events + 2)) : s.range(1, std::max(1L, n_events / 3));
   c["cut_frame_end"] = s.coin() ? 0 : s.range(20, tmax + 60);
   const int sp = int(s.range(0, 3));
   c["store_prompts"] = sp != 3;
@@ -1222,7 +1324,7 @@ nontrivial(const json& c)
     {
       World w = make_world(c);
       int mb = 1;
-      for (const RunCfg& r : run_cfgs(c, false))
+      for (const RunCfg& r : run_cfgs(c, false, false))
         mb = std::max(mb, num_batches(w, r));
       if (mb < 2)
         return false;
